@@ -362,6 +362,10 @@ def locate_loop(fi: FuncInfo, which: int = 0, kind=(ast.For, ast.While)):
                 walk(st.body, pre + stmts[:k], conds + [(st.test, True)])
                 walk(st.orelse, pre + stmts[:k], conds + [(st.test, False)])
     walk(fi.node.body, [], [])
+    if len(found) <= which and ast.For in (kind if isinstance(kind, tuple) else (kind,)):
+        # a comprehension is a loop: read the written-out form
+        found.clear()
+        walk(desugar_comprehensions(fi), [], [])
     if len(found) <= which:
         raise AnalysisError(f"{fi.qualname}: expected a loop #{which} outside other loops - shape not recognised")
     pre_, loop_, post_, conds_ = found[which]
